@@ -475,9 +475,8 @@ fn print_in(e: &E, body: bool) -> Option<String> {
             parts.join("\n\n")
         }
         E::SideAfter(v, eff) => {
-            // a side-effect block attaches to the token before it; after a closing bracket the parser loses the
-            // bracket's content (recorded finding), so only the atom form and the explicit group form are printed
-            let vs = if is_simple_value(v) || matches!(**v, E::Group(_) | E::Nested(..)) { print_in(v, false)? } else { return None };
+            // a side-effect block attaches to the token before it: a non-atomic operand is parenthesised
+            let vs = if is_simple_value(v) || matches!(**v, E::Group(_) | E::Nested(..)) { print_in(v, false)? } else { paren(print_in(v, false)?) };
             format!("{} [{}]", vs, print_in(eff, true)?)
         }
         E::SideBefore(eff, v) => {
